@@ -33,6 +33,10 @@ def rebuild_dimset(fd, ds: DSnap, order=None):
     return fd.DimensionSet(dim_list=[fd.Dimension(letter=d[0], name=d[1], items=list(d[2])) for d in (ds.dims[letters.index(l)] for l in order)])
 
 
+def numeric(snap) -> bool:
+    return isinstance(snap, Snap) and snap.ok and snap.values.dtype.kind in "fiub"
+
+
 def labelled(arr_or_snap):
     """dict frozenset{(letter, item)} -> value : independent of the storage order"""
     s = arr_or_snap if isinstance(arr_or_snap, Snap) else Snap(arr_or_snap)
@@ -102,7 +106,17 @@ def register(hub, exhaustive: bool, rng, prop="C04", max_pairs=24):
         except Exception as e:
             return None, e
 
-    def judge(call, opn, primary, primary_exc, prm_result, prm_exc, expected_letters, exact, desc):
+    def in_scale(*snaps):
+        """sum of |input entries|: an order-free bound for the terms of any additive result (cancellation-safe)"""
+        tot = 0.0
+        for sn in snaps:
+            if isinstance(sn, Snap) and sn.ok and sn.values.size and sn.values.dtype.kind in "fiu":
+                v = np.abs(np.asarray(sn.values, dtype=float))
+                v = v[np.isfinite(v)]
+                tot += float(v.sum()) if v.size else 0.0
+        return tot
+
+    def judge(call, opn, primary, primary_exc, prm_result, prm_exc, expected_letters, exact, desc, scale_floor=0.0):
         """compare one permuted run with the primary run"""
         if (primary_exc is None) != (prm_exc is None):
             viol(call, "raises-in-one-storage-order-only", primary=exc_text(primary_exc) if primary_exc else "returned", permuted=exc_text(prm_exc) if prm_exc else "returned", **desc)
@@ -119,7 +133,7 @@ def register(hub, exhaustive: bool, rng, prop="C04", max_pairs=24):
                 return False
             A, B = labelled(primary), labelled(ps)
             vals = [abs(float(v)) for v in A.values() if v == v and abs(float(v)) != float("inf")]
-            d = same_entries(A, B, exact, max(vals) if vals else 1.0)
+            d = same_entries(A, B, exact, max(max(vals) if vals else 1.0, scale_floor))
             if d is not None:
                 viol(call, f"entries-differ-between-storage-orders:{d[0]}", diff=list(d[1:]), **desc)
                 return False
@@ -141,11 +155,11 @@ def register(hub, exhaustive: bool, rng, prop="C04", max_pairs=24):
         opn = call.op.split(".")[-1]
         xs = call.pre[0]
         other = call.arg(1)
-        if not isinstance(xs, Snap) or not xs.ok or len(xs.letters) > MAX_DIMS or xs.values.size > MAX_SIZE:
+        if not numeric(xs) or len(xs.letters) > MAX_DIMS or xs.values.size > MAX_SIZE:
             return
         if isinstance(other, fd.FlodymArray):
             ys = call.pre[1]
-            if not isinstance(ys, Snap) or not ys.ok or len(ys.letters) > MAX_DIMS:
+            if not numeric(ys) or len(ys.letters) > MAX_DIMS:
                 return
         elif is_real_number(other):
             ys = None
@@ -170,8 +184,9 @@ def register(hub, exhaustive: bool, rng, prop="C04", max_pairs=24):
             else:
                 exp = list(px) + [l for l in py if l not in px]
             n += 1
+            floor = in_scale(xs, ys) if opn in ("__add__", "__sub__", "minimum", "maximum") else 0.0
             if not judge(call, opn, call.result, call.exc, r, e, exp, exact, dict(x_order=list(px), y_order=list(py) if py else None, x_dims=list(xs.letters), y_dims=list(ys.letters) if ys else None,
-                                                                                     x_shape=list(xs.shape))):
+                                                                                     x_shape=list(xs.shape)), scale_floor=floor):
                 break
         if n:
             rec.event(M, sig=f"{opn}|{''.join(xs.letters)}:{xs.shape}|{''.join(ys.letters) + ':' + str(ys.shape) if ys is not None else 'num'}|{exact}", cls=f"{opn}|{'all-orders' if full else 'sampled-orders'}|{'exact' if exact else 'real'}", n=n,
@@ -184,7 +199,7 @@ def register(hub, exhaustive: bool, rng, prop="C04", max_pairs=24):
     def o_unary_method(method, rule, extra_array_arg=None):
         def oracle(hub, call):
             xs = call.pre[0]
-            if not isinstance(xs, Snap) or not xs.ok or len(xs.letters) > MAX_DIMS or len(xs.letters) < 2 or xs.values.size > MAX_SIZE:
+            if not numeric(xs) or len(xs.letters) > MAX_DIMS or len(xs.letters) < 2 or xs.values.size > MAX_SIZE:
                 return
             args = list(call.args[1:])
             kwargs = dict(call.kwargs)
@@ -212,7 +227,8 @@ def register(hub, exhaustive: bool, rng, prop="C04", max_pairs=24):
                     r, e = outcome(lambda: getattr(xp, method)(*args, **kwargs))
                     exp = rule(call, xs, px, args, kwargs)
                 n += 1
-                if not judge(call, method, call.result, call.exc, r, e, exp, exact, dict(x_order=list(px), target_order=list(pt) if pt else None, x_dims=list(xs.letters), args=repr(args)[:100])):
+                floor = in_scale(xs) if method in ("sum_to", "sum_over", "cumsum") else 0.0
+                if not judge(call, method, call.result, call.exc, r, e, exp, exact, dict(x_order=list(px), target_order=list(pt) if pt else None, x_dims=list(xs.letters), args=repr(args)[:100]), scale_floor=floor):
                     break
             if n:
                 rec.event(M, sig=f"{method}|{''.join(xs.letters)}:{xs.shape}|{repr(args)[:60]}|{'' if tds is None else ''.join(tds.letters)}", cls=f"{method}|{'all-orders' if full else 'sampled-orders'}|{'exact' if exact else 'real'}", n=n)
@@ -241,7 +257,7 @@ def register(hub, exhaustive: bool, rng, prop="C04", max_pairs=24):
     # ------------------------------------------------------------------ slice reads
     def o_getitem(hub, call):
         xs = call.pre[0]
-        if not isinstance(xs, Snap) or not xs.ok or len(xs.letters) > MAX_DIMS or len(xs.letters) < 2 or xs.values.size > MAX_SIZE:
+        if not numeric(xs) or len(xs.letters) > MAX_DIMS or len(xs.letters) < 2 or xs.values.size > MAX_SIZE:
             return
         key = call.arg(1)
         sel, status, kind = parse_key(fd, xs, key)
@@ -274,7 +290,7 @@ def register(hub, exhaustive: bool, rng, prop="C04", max_pairs=24):
     # ------------------------------------------------------------------ assignment
     def o_setitem(hub, call):
         ts = call.pre[0]
-        if not isinstance(ts, Snap) or not ts.ok or len(ts.letters) > MAX_DIMS or ts.values.size > MAX_SIZE:
+        if not numeric(ts) or len(ts.letters) > MAX_DIMS or ts.values.size > MAX_SIZE:
             return
         key = call.arg(1)
         rhs = call.arg(2)
@@ -309,7 +325,7 @@ def register(hub, exhaustive: bool, rng, prop="C04", max_pairs=24):
                 break
             A, B = labelled(target_after), labelled(tps)
             vals = [abs(float(v)) for v in A.values() if v == v]
-            d = same_entries(A, B, exact, max(vals) if vals else 1.0)
+            d = same_entries(A, B, exact, max(max(vals) if vals else 1.0, in_scale(ss) if isinstance(ss, Snap) else 0.0))
             if d is not None:
                 viol(call, f"target-entries-differ-between-storage-orders:{d[0]}", diff=list(d[1:]), **desc)
                 break
@@ -321,7 +337,7 @@ def register(hub, exhaustive: bool, rng, prop="C04", max_pairs=24):
     # ------------------------------------------------------------------ split / stack
     def o_split(hub, call):
         xs = call.pre[0]
-        if not isinstance(xs, Snap) or not xs.ok or len(xs.letters) > MAX_DIMS or len(xs.letters) < 2 or call.exc is not None:
+        if not numeric(xs) or len(xs.letters) > MAX_DIMS or len(xs.letters) < 2 or call.exc is not None:
             return
         letter = call.arg(1, "dim_letter")
         combos, full = pick((px,) for px in itertools.permutations(xs.letters))
@@ -359,6 +375,8 @@ def register(hub, exhaustive: bool, rng, prop="C04", max_pairs=24):
         if call.exc is not None or not isinstance(snaps, list) or not snaps or len(snaps[0].letters) > 3 or len(snaps[0].letters) < 2:
             return
         letters = snaps[0].letters
+        if any((not numeric(sn)) or set(sn.letters) != set(letters) for sn in snaps):
+            return
         combos, full = pick((px,) for px in itertools.permutations(letters))
         n = 0
         for (px,) in combos:
